@@ -808,8 +808,8 @@ def _c05_parse_list(text):
     parts = re.split(r'\d+', text)[1:-1]
     thru = []
     for p in parts:
-        q = re.sub(r'(Sections|Section|Secs\.?|Sec\.?|Sect\.|Lots|Lot|Lts\.?|Lt\.?|L\.?|§+)\s*', '', p)
-        thru.append(bool(re.search(r'-|–|—|through|thru|\bto\b', q)))
+        q = re.sub(r'(Sections|Section|Secs\.?|Sec\.?|Sect\.|Lots|Lot|Lts\.?|Lt\.?|L\.?|§+)\s*', '', p, flags=re.I)
+        thru.append(bool(re.search(r'-|–|—|through|thru|\bto\b', q, re.I)))
     return nums, thru
 
 
@@ -884,3 +884,32 @@ def c08_defaults(text, cns, cew, kns, kew, mns, mew, how):
     finally:
         MC.default_ns, MC.default_ew = save
     return why is not None, f'{why}'
+
+
+# ------------------------------------------------------------------ C07
+@replay('c07_text')
+def c07_text(text, expect_in_pp, clean_qq):
+    import pytrs
+    t = pytrs.Tract(text, parse_qq=True, config='clean_qq' if clean_qq else '')
+    again = pytrs.Tract(t.pp_desc, parse_qq=True, config='clean_qq' if clean_qq else '')
+    bad = (expect_in_pp is not None and expect_in_pp not in t.pp_desc) or again.pp_desc != t.pp_desc
+    return bad, f'Tract({text!r}).pp_desc = {t.pp_desc!r} (expected to contain {expect_in_pp!r}); second pass {again.pp_desc!r}'
+
+
+@replay('c07_chain')
+def c07_chain(text, chain, cfg):
+    import pytrs
+    from spec import aliquot_spellings as A
+    canon = ''.join(A.canonical(c) for c in chain)
+    t = pytrs.Tract(text, parse_qq=True, config=cfg)
+    ref = pytrs.Tract(canon, parse_qq=True, config=cfg)
+    again = pytrs.Tract(t.pp_desc, parse_qq=True, config=cfg)
+    bad = canon not in t.pp_desc or t.qqs != ref.qqs or again.pp_desc != t.pp_desc
+    return bad, f'Tract({text!r}, config={cfg!r}): pp_desc {t.pp_desc!r} qqs {t.qqs}; canonical {canon!r} qqs {ref.qqs}'
+
+
+@replay('c07_bare')
+def c07_bare(text, clean, expect, q):
+    import pytrs
+    t = pytrs.Tract(text, parse_qq=True, config='clean_qq' if clean else '')
+    return ((q + '¼') in t.pp_desc) != expect, f'Tract({text!r}, clean_qq={clean}).pp_desc = {t.pp_desc!r}'
